@@ -114,6 +114,7 @@ type world struct {
 }
 
 var (
+	stat     = func(string) {}
 	w        *world
 	realImpl channel.IPushMessager = &impls.ChannelPushMessageImpl{}
 )
@@ -237,6 +238,15 @@ func exec(op string) string {
 	if len(ws) == 0 {
 		return "bad-op"
 	}
+	obs := guarded(ws)
+	if obs == "panic" {
+		// the code under test may have died holding a group lock: continue on a fresh world
+		w = newWorld(w.local)
+	}
+	return obs
+}
+
+func guarded(ws []string) string {
 	return hx.Guard(func() string {
 		w.deliveries, w.pushes = nil, nil
 		switch ws[0] {
@@ -292,13 +302,23 @@ func exec(op string) string {
 			ch.PushMessage(route, msg)
 			ps := w.pushes
 			sort.SliceStable(ps, func(i, j int) bool { return ps[i].front < ps[j].front })
+			// tuples with an empty id list reach nobody: whether they are sent is not
+			// compared, only that no front is addressed twice (over all tuples)
 			var sb strings.Builder
-			fmt.Fprintf(&sb, "n=%d", len(ps))
+			n, once, seen := 0, 1, map[string]bool{}
 			for _, p := range ps {
-				fmt.Fprintf(&sb, " ; push front=%s ids=%s route=%s msg=%s", p.front, showIds(p.ids), p.route, p.msg)
+				if seen[p.front] {
+					once = 0
+				}
+				seen[p.front] = true
+				if len(p.ids) > 0 {
+					n++
+					fmt.Fprintf(&sb, " ; push front=%s ids=%s route=%s msg=%s", p.front, showIds(p.ids), p.route, p.msg)
+				} else {
+					stat("bcast.empty-tuple")
+				}
 			}
-			sb.WriteString(" | " + w.showDl())
-			return sb.String()
+			return fmt.Sprintf("n=%d%s | once=%d %s", n, sb.String(), once, w.showDl())
 		case "alloctemp":
 			k, ok := hx.KV(ws, "slot")
 			if !ok {
@@ -616,9 +636,6 @@ func countObs(h *hx.T, op, obs string) {
 			return
 		}
 		h.Count("bcast.tuples=" + strings.SplitN(strings.TrimPrefix(obs, "n="), " ", 2)[0])
-		if strings.Contains(obs, "ids= ") {
-			h.Count("bcast.with-empty-group")
-		}
 		if !strings.HasSuffix(obs, "dl=") {
 			h.Count("bcast.local-delivery")
 		}
@@ -668,6 +685,7 @@ func TestRun(t *testing.T) {
 	h := hx.Open()
 	defer h.Close()
 	w = newWorld("")
+	stat = h.Count
 	run := func(op string) {
 		obs := exec(op)
 		countObs(h, op, obs)
